@@ -493,6 +493,14 @@ func TestC16_VirtualTimeEnumerated(t *testing.T) {
 				run(c16Case{Op: op, D: d, N: 2, Gaps: tl, End: 'C', CutAt: d + 1, Cut: "unsubscribe"})
 			}
 		}
+		// bursts: many values whose timers are due at the same instant (which of the
+		// timer goroutines runs first is up to the scheduler: repeated)
+		burst := []int{1, 0, 0, 0, 0, 0, 0, 0}
+		for rep := 0; rep < 25; rep++ {
+			for _, op := range []string{"Delay", "DelayEach"} {
+				run(c16Case{Op: op, D: d, Gaps: burst, End: []byte{'C', 'E'}[rep%2], CutAt: -1})
+			}
+		}
 	}
 }
 
